@@ -22,17 +22,22 @@ Vocabulary (`W = pathSegs work`, the physical components of the temporary work d
   the callback (`sn_prepVisit_eq` is the callback in normal form).
 * `snRules fs work` — the ignore rules `ensurePrepared` loads.
 * `SanGood rules work fs' k n` — the binding `k ↦ n` has passed the callback: `k` is the root, or
-  its relative path is not excluded and `SanKind`: `n` is a regular file, a directory, or a link that
-  resolved (when visited) to a regular file or directory physically at or below `W`.
-* `SnLocalLink W p t` — the link at `p` has a relative target `t` with all `..` first and no more of
-  them than `p` is deep below `W`.
+  its relative path is not excluded, `SanKind`: `n` is a regular file, a directory, or a link that
+  resolved (when visited) to a regular file or directory physically at or below `W`, and `snLinkOK`.
+* `snLinkOK rel node` — the lexical check of the callback: a link's target is relative and
+  `filepath.IsLocal (Join (Dir rel) target)`.
 
 Findings recorded here:
-* F31 `C10_cex_abs_link_into_workdir`, `C10_cex_rel_link_through_workdir_name`: the checks are made
-  while the package still has its temporary name; a link whose target mentions that name (absolute,
-  or relative through `../.tmp-N/`) passes the walk and the hash and dangles after the rename.  So
-  the `_partial` theorems speak of the state before the rename; that links still resolve inside
-  after it is proved only for local links (`C10_links_resolve_after_rename_partial`).
+* F31 (repaired) `C10_abs_link_into_workdir_refused`, `C10_rel_link_through_workdir_name_refused`: the
+  physical checks are made while the package still has its temporary name; a link whose target
+  mentions that name (absolute, or relative through `../.tmp-N/`) used to pass the walk and the hash
+  and dangle after the rename.  The callback now also requires a relative target that is local when
+  joined to the link's directory (`snLinkOK`, `C10_fail_on_nonlocal_link`); with that,
+  `C10_links_survive_rename` / `C10_sanitised` speak of the finished package, after the rename, with
+  no hypothesis on the links of the fetched tree.
+* `C10_walk_alone_not_enough`: the lexical and the physical check of the walk together still let a
+  link through that dangles after the rename (`l -> z/../.tmp-1/a` with `z -> .`); it is the hash,
+  which refuses links to directories, that stops it — `C10_links_survive_rename` uses all three.
 * `C10_cex_tmp_left_on_failure`: when the preparation fails the temporary directory is left behind.
 -/
 namespace Slug
@@ -555,8 +560,9 @@ was bound at or below the final name beforehand: every binding strictly below th
 is the binding the fetched tree had at the same place below the work directory, is not excluded by
 the package's ignore rules, and is a regular file, a directory, or a link which — before the
 rename, at its place in the work directory — resolved physically to a regular file inside the
-work directory.  (`_partial`: that the link still resolves inside the package *after* the rename is
-false, see `C10_cex_abs_link_into_workdir` and `C10_cex_rel_link_through_workdir_name`.) -/
+work directory, and whose target is relative and lexically local.  (`_partial`: it speaks of the
+links before the rename and needs no sibling hypothesis; `C10_sanitised` is the full statement, about
+the finished package.) -/
 theorem C10_sanitised_partial (fs : FS) (work final : Str) (fs' : FS) (d : PPath)
     (hc : AbsClean work) (hreal : RealDir fs (pathSegs work)) (hk : KeysPhysical fs)
     (hN : SanNames (pathSegs work) fs)
@@ -851,6 +857,42 @@ theorem C10_links_survive_rename (fs : FS) (work final : Str) (fs' : FS) (d : PP
       rw [pathSegs_ofSegs _ hFx]
       exact hjoin
 
+/-- **C10_sanitised.** The full statement about the directory `ensurePrepared` returns, in the state
+it leaves (after the rename), when nothing was bound at or below the final name beforehand and the
+final directory is a sibling of the work directory: every binding strictly below the returned
+directory `d` is the binding the fetched tree had at the same place below the work directory, is not
+excluded by the package's ignore rules (nor, for a directory, as `rel/`), and is a regular file, a
+directory, or a link with a relative, lexically local target that resolves — now, in the finished
+package — to a regular file below `d`. -/
+theorem C10_sanitised (fs : FS) (work final : Str) (fs' : FS) (d : PPath)
+    (hc : AbsClean work) (hcf : AbsClean final) (hreal : RealDir fs (pathSegs work)) (hk : KeysPhysical fs)
+    (hN : SanNames (pathSegs work) fs)
+    (hfresh : ∀ q, pathSegs final <+: q → fs.get q = none)
+    (hWne : pathSegs work ≠ []) (hFne : pathSegs final ≠ [])
+    (hsib : (pathSegs work).dropLast = (pathSegs final).dropLast)
+    (h : ensurePrepared fs work final = (fs', .ok d)) :
+    d = pathSegs final ∧
+    ∀ x n, x ≠ [] → fs'.get (d ++ x) = some n →
+      fs.get (pathSegs work ++ x) = some n ∧
+      (excludes (snRules fs work) (joinWith '/' x)).1 = false ∧
+      (snIsDir n && (excludes (snRules fs work) (joinWith '/' x ++ ['/'])).1) = false ∧
+      ((∃ pm mt c, n = .file pm mt c) ∨ (∃ pm mt, n = .dir pm mt) ∨
+       ∃ t, n = .link t ∧ isAbs t = false ∧ isLocal (pathJoin (pathDir (joinWith '/' x)) t) = true ∧
+         ∃ y pm mt c, fs'.evalSymlinks (ofSegs (d ++ x)) = some (d ++ y) ∧
+           fs'.lookup (d ++ y) = some (.file pm mt c)) := by
+  obtain ⟨hd, fs1, _, hall⟩ := C10_sanitised_partial fs work final fs' d hc hreal hk hN hfresh h
+  obtain ⟨_, hlinks⟩ := C10_links_survive_rename fs work final fs' d hc hcf hreal hk hN hfresh hWne hFne hsib h
+  refine ⟨hd, ?_⟩
+  intro x n hx hg
+  obtain ⟨h0, _, h1, h2, hkind⟩ := hall x n hx hg
+  refine ⟨h0, h1, h2, ?_⟩
+  rcases hkind with e | e | ⟨t, e, _⟩
+  · exact Or.inl e
+  · exact Or.inr (Or.inl e)
+  · subst e
+    obtain ⟨ha, hb, hres⟩ := hlinks x t hx hg
+    exact Or.inr (Or.inr ⟨t, rfl, ha, hb, hres⟩)
+
 /-- `/t/b/.tmp-1` holding a file `a` and a link `d -> ../.tmp-1/a` (relative, through the work
 directory's own temporary name) -/
 def c10FsRel : FS :=
@@ -874,6 +916,33 @@ theorem C10_rel_link_refused_hyps :
     isAbs "../.tmp-1/a".toList = false ∧
     c10FsRel.evalSymlinks "/t/b/.tmp-1/d".toList = some (c10W ++ ["a".toList]) ∧
     isLocal (pathJoin (pathDir "d".toList) "../.tmp-1/a".toList) = false := by
+  decide
+
+/-- `/t/b/.tmp-1` holding a file `a`, a link `z -> .` (to the package root) and a link
+`l -> z/../.tmp-1/a`: as written `l` stays inside the package (`z/..` cancels), but the kernel follows
+`z`, so `..` is the parent of the package root and the path re-enters through the temporary name -/
+def c10FsVia : FS :=
+  [(["t","b",".tmp-1","z"].map String.toList, .link ".".toList),
+   (["t","b",".tmp-1","l"].map String.toList, .link "z/../.tmp-1/a".toList),
+   (["t","b",".tmp-1","a"].map String.toList, .file 0o644 0 "x".toList),
+   (["t","b",".tmp-1"].map String.toList, .dir 0o755 0),
+   (["t","b"].map String.toList, .dir 0o755 0),
+   (["t"].map String.toList, .dir 0o755 0)]
+
+/-- **C10_walk_alone_not_enough.** The walk accepts both links of `c10FsVia`: each is relative,
+lexically local, and resolves physically inside the work directory (`l` to the regular file `a`).
+Renamed as it is, `l` would dangle.  The preparation fails nevertheless — in the hash, which cannot
+read `z`, a link to a directory.  So that the links of a prepared package resolve after the rename
+rests on the hash as well (a link that reads as a regular file cannot be a directory on the way of
+another link, `sn_link_blocks`). -/
+theorem C10_walk_alone_not_enough :
+    (prepWalk defaultRules c10Work prepFuel c10FsVia c10Work (.dir 0o755 0)) = (c10FsVia, .cont) ∧
+    snLinkOK "l".toList (.link "z/../.tmp-1/a".toList) = true ∧ snLinkOK "z".toList (.link ".".toList) = true ∧
+    c10FsVia.evalSymlinks "/t/b/.tmp-1/l".toList = some (c10W ++ ["a".toList]) ∧
+    (c10FsVia.renameDir c10W c10F).evalSymlinks "/t/b/HASH/l".toList = none ∧
+    hashable c10FsVia c10W = false ∧
+    ensurePrepared c10FsVia c10Work c10Final = (c10FsVia, .fail) ∧
+    SanCheck c10FsVia c10W := by
   decide
 
 /-! ## 10. on failure the temporary directory stays -/
@@ -941,8 +1010,19 @@ example : AbsClean c10Work ∧ pathSegs c10Work = c10W ∧ pathSegs c10Final = c
   obtain ⟨h1, h2, h3⟩ := sanCheck_sound h
   exact ⟨by decide, by decide, by decide, h1, h2, h3, by decide, by decide, by decide⟩
 
-/-- … the run succeeds: the ignored directory is gone, the work directory is gone, the link is kept
-and still resolves to the file inside the package -/
+/-- … and so do the additional ones of `C10_links_survive_rename` / `C10_sanitised` -/
+example : AbsClean c10Final ∧ c10W ≠ [] ∧ c10F ≠ [] ∧ c10W.dropLast = c10F.dropLast ∧
+    (∀ q, c10F <+: q → c10FsGood.get q = none) := by
+  refine ⟨by decide, by decide, by decide, by decide, ?_⟩
+  intro q hq
+  rw [sn_get_eq_none]
+  intro e he heq
+  have : ∀ e ∈ c10FsGood, ¬ c10F <+: e.1 := by decide
+  exact this e he (by rw [heq]; exact hq)
+
+/-- … the run succeeds: the ignored directory is gone, the work directory is gone, the link
+`sub/l -> ../a` (lexically local: it stays inside the package as written) is kept and still resolves
+to the file inside the package after the rename -/
 example :
     let r := ensurePrepared c10FsGood c10Work c10Final
     r.2 = .ok c10F ∧
@@ -950,6 +1030,60 @@ example :
     r.1.get c10W = none ∧
     r.1.get (c10F ++ ["sub".toList, "l".toList]) = some (.link "../a".toList) ∧
     r.1.evalSymlinks "/t/b/HASH/sub/l".toList = some (c10F ++ ["a".toList]) := by
+  decide
+
+/-- a fetched package with a file `sub/file` and a link `l -> sub/file` -/
+def c10FsDown : FS :=
+  [(["t","b",".tmp-1","l"].map String.toList, .link "sub/file".toList),
+   (["t","b",".tmp-1","sub","file"].map String.toList, .file 0o644 0 "x".toList),
+   (["t","b",".tmp-1","sub"].map String.toList, .dir 0o755 0),
+   (["t","b",".tmp-1"].map String.toList, .dir 0o755 0),
+   (["t","b"].map String.toList, .dir 0o755 0),
+   (["t"].map String.toList, .dir 0o755 0)]
+
+/-- `l -> sub/file` is accepted and resolves after the rename -/
+example :
+    let r := ensurePrepared c10FsDown c10Work c10Final
+    r.2 = .ok c10F ∧ SanCheck c10FsDown c10W ∧
+    r.1.get (c10F ++ ["l".toList]) = some (.link "sub/file".toList) ∧
+    isAbs "sub/file".toList = false ∧ isLocal (pathJoin (pathDir "l".toList) "sub/file".toList) = true ∧
+    r.1.evalSymlinks "/t/b/HASH/l".toList = some (c10F ++ ["sub".toList, "file".toList]) ∧
+    r.1.lookup (c10F ++ ["sub".toList, "file".toList]) = some (.file 0o644 0 "x".toList) ∧
+    r.1.get c10W = none := by
+  decide
+
+/-- `d/l -> ../../.tmp-1/a` (relative, out of the package and back in through the temporary name of
+the work directory) resolves inside the package while the walk runs — and is refused; so is
+`l -> /t/b/.tmp-1/a` (`C10_abs_link_into_workdir_refused`) -/
+example :
+    let fs : FS :=
+      [(["t","b",".tmp-1","d","l"].map String.toList, .link "../../.tmp-1/a".toList),
+       (["t","b",".tmp-1","d"].map String.toList, .dir 0o755 0),
+       (["t","b",".tmp-1","a"].map String.toList, .file 0o644 0 "x".toList),
+       (["t","b",".tmp-1"].map String.toList, .dir 0o755 0),
+       (["t","b"].map String.toList, .dir 0o755 0),
+       (["t"].map String.toList, .dir 0o755 0)]
+    SanCheck fs c10W ∧
+    fs.evalSymlinks "/t/b/.tmp-1/d/l".toList = some (c10W ++ ["a".toList]) ∧
+    isLocal (pathJoin (pathDir "d/l".toList) "../../.tmp-1/a".toList) = false ∧
+    ensurePrepared fs c10Work c10Final = (fs, .fail) := by
+  decide
+
+/-- `d/l -> ../a` is accepted (lexically local: one `..` from a link one directory deep) and resolves
+after the rename -/
+example :
+    let fs : FS :=
+      [(["t","b",".tmp-1","d","l"].map String.toList, .link "../a".toList),
+       (["t","b",".tmp-1","d"].map String.toList, .dir 0o755 0),
+       (["t","b",".tmp-1","a"].map String.toList, .file 0o644 0 "x".toList),
+       (["t","b",".tmp-1"].map String.toList, .dir 0o755 0),
+       (["t","b"].map String.toList, .dir 0o755 0),
+       (["t"].map String.toList, .dir 0o755 0)]
+    let r := ensurePrepared fs c10Work c10Final
+    r.2 = .ok c10F ∧ SanCheck fs c10W ∧
+    isLocal (pathJoin (pathDir "d/l".toList) "../a".toList) = true ∧
+    r.1.get (c10F ++ ["d".toList, "l".toList]) = some (.link "../a".toList) ∧
+    r.1.evalSymlinks "/t/b/HASH/d/l".toList = some (c10F ++ ["a".toList]) := by
   decide
 
 /-- a package containing a fifo, and one containing a dangling link, make `ensurePrepared` fail -/
@@ -988,13 +1122,13 @@ example :
     ¬ c10W <+: ["t","secret"].map String.toList := by
   decide
 
-/-- `SnLocalLink` holds of the link of the good package and excludes the links of the two
-counterexamples; the final directory is a sibling of the work directory -/
+/-- the lexical check accepts the link of the good package and refuses the links of the two former
+counterexamples to F31; the final directory is a sibling of the work directory -/
 example :
-    SnLocalLink c10W (c10W ++ ["sub".toList, "l".toList]) "../a".toList ∧
+    snLinkOK "sub/l".toList (.link "../a".toList) = true ∧
     c10W.dropLast = c10F.dropLast ∧
-    ¬ SnLocalLink c10W (c10W ++ ["d".toList]) "../.tmp-1/a".toList ∧
-    ¬ SnLocalLink c10W (c10W ++ ["d".toList]) "/t/b/.tmp-1/a".toList := by
-  unfold SnLocalLink; decide
+    snLinkOK "d".toList (.link "../.tmp-1/a".toList) = false ∧
+    snLinkOK "d".toList (.link "/t/b/.tmp-1/a".toList) = false := by
+  decide
 
 end Slug
